@@ -161,6 +161,11 @@ def annotate_event(tid, ps, future, rnd):
     named = [p['n'] for p in ps if p['k'] not in ('var', 'vkw')]
     chosen = rnd.sample(named, rnd.randrange(1, len(named) + 1)) if named else []
     vals = {n: absig.AN[30 + k] for k, n in enumerate(chosen)}
+    strs = {}
+    for n in chosen:
+        if rnd.random() < 0.35:        # a string value: verbatim too, whatever the compilation mode of the decorated function
+            vals[n] = rnd.choice(sorted(absig.STR_ANN))
+            strs[n] = absig.STR_ANN[vals[n]]
     ret = absig.AN[38]
     wantret = denote(1, 2, True) if own_ret else 38
     try:
@@ -171,7 +176,7 @@ def annotate_event(tid, ps, future, rnd):
         tag = 'sig'
     except Exception as e:  # noqa
         got, gotret, tag = [], 0, 'other'
-    want = [dict(p, an=(30 + chosen.index(p['n']) if p['n'] in chosen else denote(1, p['an'], True))) for p in ps]
+    want = [dict(p, an=(strs.get(p['n'], 30 + chosen.index(p['n'])) if p['n'] in chosen else denote(1, p['an'], True))) for p in ps]
     return {'tid': tid, 'op': 'law', 'law': 'C11_AnnotateValuesNotVerbatim', 'cmp': 'ps', 'pre': 'none', 'side': gotret == wantret, 'ins': [],
             'results': [{'tag': 'sig', 'ps': want}, {'tag': tag, 'ps': [dict(q, dv=p['dv']) for q, p in zip(got, ps)] if tag == 'sig' else []}],
             'case': {'op': 'annotate', 'ins': [ps], 'future': future, 'chosen': chosen}}
